@@ -389,6 +389,9 @@ def check(ctx, case):
                     # the statement does not cover, returned something unusable): not a clause of the property - the case
                     # continues with a fresh object on the direct route
                     ctx.count("mpl_route_refused_by_matplotlib:" + type(e).__name__)
+                    smp = ctx.extra.setdefault("mpl_route_refused_samples", [])
+                    if len(smp) < 3:
+                        smp.append({"error": str(e)[:200], "case": {k: v for k, v in case.items() if k != "data"}, "data_head": str(case.get("data"))[:300]})
                     norm = cn.CustomNormalization(**kw)
             il = norm.interval.get_limits(x)
             y = norm(x)
